@@ -61,6 +61,10 @@ pub enum Spelling {
 	Debug,
 	Raw,
 	AllEscapes,
+	/// `str::escape_default`: `\'`, `\"`, `\\`, `\n`, `\t`, `\u{..}` for everything non-ASCII
+	EscapeDefault,
+	/// Debug spelling with a line continuation (`\` + newline + indentation) inserted
+	Continuation,
 }
 
 #[derive(Debug, Clone, Hash)]
@@ -73,8 +77,11 @@ fn render(l: &Lit) -> String {
 	match l.spelling {
 		Spelling::Debug => format!("{:?}", l.value),
 		Spelling::Raw => {
-			if l.value.contains('\r') {
-				return format!("{:?}", l.value);
+			// rustc itself refuses a bare CR and (deny-by-default lint text_direction_codepoint_in_literal)
+			// bidirectional control characters written literally: that has nothing to do with the macros
+			let bidi = |c: char| matches!(c, '\u{202a}'..='\u{202e}' | '\u{2066}'..='\u{2069}');
+			if l.value.contains('\r') || l.value.chars().any(bidi) {
+				return format!("\"{}\"", l.value.escape_default());
 			}
 			let mut n = 0;
 			loop {
@@ -86,6 +93,15 @@ fn render(l: &Lit) -> String {
 			}
 			let h = "#".repeat(n);
 			format!("r{h}\"{}\"{h}", l.value)
+		}
+		Spelling::EscapeDefault => format!("\"{}\"", l.value.escape_default()),
+		Spelling::Continuation => {
+			let d = format!("{:?}", l.value);
+			// insert a line continuation after the opening quote's first character boundary that is not inside an escape
+			let inner = &d[1..d.len() - 1];
+			let cut = inner.char_indices().map(|(i, _)| i).find(|i| *i > 0 && !inner[..*i].ends_with('\\') && !inner[..*i].contains("\\u{") || *i == 0).unwrap_or(0);
+			let cut = if inner[..cut].contains('\\') { 0 } else { cut };
+			format!("\"{}\\\n      {}\"", &inner[..cut], &inner[cut..])
 		}
 		Spelling::AllEscapes => {
 			let mut s = String::from("\"");
@@ -112,6 +128,10 @@ fn literal(mac: Mac) -> BoxedStrategy<Lit> {
 	let tricky: Vec<String> = [
 		"", "a:", "a", "a:b\"c", "a:b\\c", "a:\n", "a:\t", "a:b c", "a:\u{0}", "a:'", "a:{}", "a:#\"#", "a:\"#", "a:%", "a:%4g", "a://[::1]:80/", "a://[::1",
 		"http://r\u{e9}sum\u{e9}.example/\u{8a9e}?\u{e000}#\u{10000}", "a:\u{e000}", "a:?\u{e000}", "a:\u{fffe}", "//h", "?q", "#f", "./a:b", "a:b:c", "1a:b", "\u{feff}a:b", "a:\r", "a:\r\n",
+		// apostrophes and other sub-delims (valid), code points that Unicode-aware code likes to special-case (valid ucschar)
+		"http://example.org/it's", "a:'", "a:('*')", "a:!$&'()*+,;=", "s:/\u{5d0}\u{200f}/b", "s:/\u{200e}", "s:/\u{202a}x\u{202c}", "s:/\u{202e}", "s:/\u{200c}\u{200d}", "s:/\u{feff}",
+		"s:/\u{ad}", "s:/\u{a0}", "s:/e\u{301}", "s:/\u{fe0f}", "s:/\u{2028}\u{2029}", "s:/\u{130}\u{df}", "s:/\u{ff0f}\u{ff1a}\u{ff03}\u{ff1f}", "s:/\u{3000}", "s://\u{ff0e}/", "s:/\u{2f}\u{338}",
+		"s:/\u{e0001}", "s:/\u{1f600}", "s:?\u{10fffd}", "s:/\u{d7ff}\u{f900}",
 	]
 	.iter()
 	.map(|s| s.to_string())
@@ -121,9 +141,11 @@ fn literal(mac: Mac) -> BoxedStrategy<Lit> {
 		2 => gen::reference(Opt::new(Fam::Iri).with_nonutf8(true), full),
 		1 => gen::reference(o, !full),
 		3 => (gen::reference(o, full), vec(gen::edit(), 1..=2)).prop_map(|(s, e)| gen::apply_edits(&s, &e)),
-		2 => select(tricky),
+		3 => select(tricky),
+		// any ucschar / iprivate scalar value somewhere in an otherwise plain IRI
+		1 => (any::<char>(), 0u8..3).prop_map(|(c, slot)| match slot { 0 => format!("s:/a{c}b"), 1 => format!("s://h{c}/"), _ => format!("s:?{c}") }),
 	];
-	(value, select(vec![Spelling::Debug, Spelling::Debug, Spelling::Raw, Spelling::AllEscapes])).prop_map(|(value, spelling)| Lit { value, spelling }).boxed()
+	(value, select(vec![Spelling::Debug, Spelling::Debug, Spelling::Raw, Spelling::AllEscapes, Spelling::EscapeDefault, Spelling::EscapeDefault, Spelling::Continuation])).prop_map(|(value, spelling)| Lit { value, spelling }).boxed()
 }
 
 fn generate(mac: Mac, n: usize, seed: u64, batch: u64) -> Vec<Lit> {
@@ -289,6 +311,8 @@ fn one_batch(mac: Mac, lits: &[Lit], out: &mut Outcome) -> Result<(), String> {
 			Spelling::Debug => "spelling:debug-escaped",
 			Spelling::Raw => "spelling:raw-string",
 			Spelling::AllEscapes => "spelling:all-escapes",
+			Spelling::EscapeDefault => "spelling:escape_default",
+			Spelling::Continuation => "spelling:line-continuation",
 		}).or_default() += 1;
 		if out.samples.len() < 12 && (h % 7 == 0) {
 			out.samples.push(serde_json::json!({"macro": mac.name(), "literal_source": render(l), "accepted_at_compile_time": !rejected_ct, "accepted_at_run_time": exp_lib}));
